@@ -157,6 +157,16 @@ def rule_reserve(ctx, M, gname, rule):
     b = g.get("reserve")
     ctx.require(b is not None, "%s::reserve" % gname)
     bi = M.info(b)
+    # growing never re-seats members: the keys handed out (and the key set, state table and sub-wakers indexed by them)
+    # keep addressing the same slab slots
+    slab = sf(slab_field(gname))
+    moved = [s for s in bi.sites if s.callee.owner == "Slab" and s.args and s.arg(0) == slab
+             and s.callee.name in ("drain", "insert", "remove", "try_remove", "clear", "retain", "compact", "shrink_to_fit", "vacant_entry", "vacant_key")]
+    taken = [t for t in flow.takes_of(bi, slab)]
+    if moved or taken:
+        ctx.fail(rule, b.def_, "reserve moves members between slab slots (%s): keys already handed out no longer address them" %
+                 ", ".join(sorted({s.callee.name for s in moved} | ({"mem::take/replace/swap"} if taken else set()))), site=b.span)
+        return
     try:
         pss = summary.summarize(bi)
     except summary.TooComplex as e:
